@@ -622,6 +622,13 @@ class IfContract(GuardContract):
         for fld in ("_writer_map", "_reader_map", "_seen_var_names", "statements"):
             ref = selfo.fields[fld]
             ctx.heap[ref.loc] = it.fresh_like(ctx.heap[ref.loc], "after_body_" + fld)
+        # ... and may contain complete if_/else_ blocks of their own, each of which leaves its flag (or None)
+        # in _last_if_block_conditional_expression
+        sref = ctx.env["self"]
+        so = ctx.deref(sref)
+        nf = dict(so.fields)
+        nf["_last_if_block_conditional_expression"] = EXPR.wrap(z3.Const(fresh_name("flag_of_a_nested_block"), Expr))
+        ctx.store(sref, VObj(so.ty, nf))
 
     def getattr_hook(self, ctx, it, obj, name):
         return None
